@@ -473,8 +473,8 @@ Definition pool_make_buffer (p : nat) (slots : nat) : M nat :=
   | None => fail
   | Some d =>
       nb <- new_buffer KBuf d 0%Z ;;
-      modify (fun s => set_ginner s (upd (ginner s) nb true)) ;;;
       (if v_inner V then need d ;;; ring_removeRef d SBuf nb else ret tt) ;;;
+      modify (fun s => set_ginner s (upd (ginner s) nb true)) ;;;
       wr_osize nb (unit_bytes * Z.of_nat slots)%Z ;;;
       bt <- rd obytes d ;;
       wr_obytes d (bt + unit_bytes * Z.of_nat slots)%Z ;;;
